@@ -433,7 +433,9 @@ Theorem C06_e2e_fibers : forall p spec cl0 nodes down cs assign frs tret o co ma
        exists tr r, fiber p true cl0 (c_plan c) (c_outs c) = (tr, r)
                     /\ match_frames (c_free c) (attempts tr) (sub_frames i assign frs) = true
                     /\ seq_ok (sub_frames i assign frs) = true
-                    /\ (forall t, In t (conn_fail_targets tr) -> In t down).
+                    /\ (forall t, In t (conn_fail_targets tr) -> In t down)
+                    /\ shards_ok down (sub_frames i assign frs) = true
+                    /\ fiber_check p true cl0 down c (sub_frames i assign frs) = Some r.
 Proof. exact e2e_fibers. Qed.
 
 (* what [match_frames] says: attempt by attempt the frame's node, consistency and answer; for a
@@ -478,8 +480,10 @@ Proof. exact single_no_more. Qed.
 (* Client-side request timeout.  What the code does: `tokio::time::timeout(timeout, runner)` wraps the
    whole execution (all fibers); when it fires the runner future is dropped, the caller gets
    RequestTimeout and nothing is sent any more.  An accepted observation of a timed-out request: at most
-   1 + max fibers (ONE when the request is not idempotent or has no speculative policy), each a run of
-   the model up to the moment it was cancelled, within the whole-request frame bound; the call returned
+   1 + max fibers, each a run of the model or a cancelled prefix of one (gate closed -- not idempotent or
+   no speculative policy: ONE fiber, and it had NOT run to its end; gate open: a fiber may have ended,
+   e.g. with an ignorable error, waiting for the next timer tick), same-node retries on the same shard,
+   within the whole-request frame bound; the call returned
    no earlier than the timeout after it started; no frame arrives more than the margin after it returned. *)
 Theorem C06_e2e_timeout : forall p idem spec cl0 nodes down cs assign frs t0 tmo tret margin,
   check_timeout p idem spec cl0 nodes down cs assign frs t0 tmo tret margin = true ->
@@ -490,7 +494,9 @@ Theorem C06_e2e_timeout : forall p idem spec cl0 nodes down cs assign frs t0 tmo
        exists tr r, fiber p idem cl0 (c_plan c) (c_outs c) = (tr, r)
                     /\ match_frames (c_free c) (attempts tr) (sub_frames i assign frs) = true
                     /\ seq_ok (sub_frames i assign frs) = true
-                    /\ (forall t, In t (conn_fail_targets tr) -> In t down))
+                    /\ (forall t, In t (conn_fail_targets tr) -> In t down)
+                    /\ shards_ok down (sub_frames i assign frs) = true
+                    /\ (gate_open idem spec = None -> fiber_finished c r = false))
   /\ (List.length frs <= frame_bound p (1 + max) (List.length nodes))%nat
   /\ (t0 + tmo <= tret)%N
   /\ (forall f, In f frs -> (f_arr f <= tret + margin)%N).
@@ -508,12 +514,17 @@ Example C06_ex_timeout :
   check_timeout PDefault false None CQuorum [0; 1; 2]%N [] [mkCert [2]%N [OSuccess] true] [0%nat]
     [mkFrame 2 CQuorum 400000 AnsNone 0 0] 0 100000 101000 150000 = false /\
   check_timeout PDefault false None CQuorum [0; 1; 2]%N [] [mkCert [2]%N [OSuccess] true] [0%nat]
-    [mkFrame 2 CQuorum 10 AnsNone 0 0] 0 100000 90000 150000 = false.
+    [mkFrame 2 CQuorum 10 AnsNone 0 0] 0 100000 90000 150000 = false /\
+  (* gate closed: the fiber ended with Overloaded at 20 us -- the caller cannot have got a timeout *)
+  check_timeout PDefault false None CQuorum [0; 1; 2]%N [] [mkCert [2; 0; 1]%N [OError (EDbError DbOverloaded)] false] [0%nat]
+    [mkFrame 2 CQuorum 10 (AnsErr (EDbError DbOverloaded)) 20 1] 0 100000 101000 150000 = false.
 Proof. vm_compute. repeat split; reflexivity. Qed.
 
 (* Shard-aware targets: a plan target is a (node, shard) pair.  Consecutive frames of an accepted
-   request on one node (a same-target retry) arrive on the same shard -- unless that node lost a
-   connection (the pool then hands out a connection of another shard). *)
+   ONE-FIBER request (premise check_single) on one node (a same-target retry) arrive on the same
+   shard -- unless that node lost a connection (the pool then hands out a connection of another
+   shard).  For the fibers of the gate-open case and of timed-out requests the same check
+   ([shards_ok] of every fiber's frames) is a conjunct of C06_e2e_fibers / C06_e2e_timeout. *)
 Theorem C06_e2e_same_shard : forall p idem cl0 nodes down c frs tret o co,
   check_single p idem cl0 nodes down c frs tret o co = true ->
   forall pre f g post, frs = pre ++ f :: g :: post -> f_node g = f_node f -> ~ In (f_node f) down ->
